@@ -459,7 +459,19 @@ func (C17) OnCall(e *sim.Env, c *sim.Call) {
 			if dDao.Sign() != 0 || dSup.Sign() != 0 {
 				e.Violate("C17", "rejected-dao-moved-funds", fmt.Sprintf("rejected DAO %s by %s @%d moved DAO by %v, supply by %v", m.Action, sender, c.H, dDao, dSup), c)
 			}
+			// "not beyond the DAO balance": an honest request of the owner for a positive amount up to the whole
+			// balance, to a plain 20-byte recipient, is inside the stated limit and is not refused
+			if isOwner && c.Panic == "" && anteShouldPass(e, c) && amt.Sign() > 0 && amt.Cmp(daoPre) <= 0 && amt.IsInt64() && sender != DAOAddr &&
+				(m.Action == govTypes.DAOBurnString || (m.Action == govTypes.DAOTransferString && len(m.ToAddress) == 20)) {
+				e.Violate("C17", "valid-dao-request-refused", fmt.Sprintf("DAO %s of %v (DAO balance %v) by the owner %s was refused @%d with code %d: %s", m.Action, amt, daoPre, sender, c.H, c.ResDeliver.Code, firstLine(c.ResDeliver.Log)), c)
+			}
+			if amt.Cmp(daoPre) == 0 {
+				e.Count("c17.dao_requests_for_the_whole_balance")
+			}
 			return
+		}
+		if amt.Cmp(daoPre) == 0 {
+			e.Count("c17.dao_requests_for_the_whole_balance")
 		}
 		e.Count("c17.dao_success." + m.Action)
 		if !isOwner {
@@ -513,4 +525,45 @@ func (C17) OnCall(e *sim.Env, c *sim.Call) {
 			}
 		}
 	}
+}
+
+// anteShouldPass: by the harness's own ground truth this transaction is an honest, properly signed, sufficiently funded,
+// fresh transaction of its signer — nothing in the ante handler's contract justifies refusing it.
+func anteShouldPass(e *sim.Env, c *sim.Call) bool {
+	if c.Meta == nil || !c.Meta.Decoded || c.Meta.Spec == nil || c.Pre.View == nil {
+		return false
+	}
+	sp := c.Meta.Spec
+	if sp.Mutate != nil || sp.SigOverride != nil || sp.SignedBy == nil || sp.FeeRaw != nil || sp.SignedBy.Multi != nil {
+		return false
+	}
+	if sp.ChainID != "" && sp.ChainID != sim.ChainID {
+		return false
+	}
+	signer := c.Meta.Signer
+	if hexs(sp.SignedBy.Addr) != signer {
+		return false
+	}
+	acc := c.Pre.View.Accounts[signer]
+	if acc == nil {
+		return false
+	}
+	if sp.PubInSig != nil {
+		if fmt.Sprintf("%x", IndepAddress(sp.PubInSig)) != signer {
+			return false
+		}
+	} else if !acc.HasPub || fmt.Sprintf("%x", IndepAddress(acc.Pub)) != signer {
+		return false
+	}
+	cp := sim.ParamsOf(c.Pre.View)
+	if bi(sp.Fee).Cmp(cp.RequiredFeeBig(c.Meta.MsgType)) < 0 || acc.Bal.Cmp(bi(sp.Fee)) < 0 {
+		return false
+	}
+	if uint64(len(sp.Memo)) > uint64(cp.MaxMemo) {
+		return false
+	}
+	if e.Idx.Has(c.Meta.Hash) {
+		return false
+	}
+	return true
 }
